@@ -268,6 +268,38 @@ def rule_hibernate_table(ck):
             ck.ob("table.hibernate", f"arm:{nm}/kept-as-uninit", ok, f"add_uninit calls={len(adds)} ctor={ctors}", f.loc(tgt))
         else:
             ck.ob("table.hibernate", f"arm:{nm}/dropped", len(adds) == 0, f"internal breakpoint kind re-created as uninit ({ctors})" if adds else "", f.loc(tgt))
+    # the whole map is processed: once the map has been taken, nothing but the end of the drain leaves the function (an
+    # error exit inside the loop would forget the remaining breakpoints: still patched, gone from both lists)
+    nexts = [n for n in f.calls() if is_iter_next(n)]
+    if ck.ob("table.hibernate", "disable_all_breakpoints/one-drain-loop", len(nexts) == 1, f"{len(nexts)} iterator loops", f.loc()):
+        n = nexts[0]
+        cuts = switch_cuts_on_call_result(f, lambda cc: cc.bb == n.bb, [0])  # None: drain finished
+        body = cut_edges_reach(f, f.succ(n.bb), {n.bb}, cuts)
+        leaks = sorted(b for b in body if f.blocks[b]["term"]["t"] == "return" and not f.blocks[b]["cleanup"])
+        ck.ob("table.hibernate", "disable_all_breakpoints/no-exit-inside-the-drain", not leaks, f"return reachable from the loop body without finishing the drain: bb{leaks}" if leaks else "", f.loc(leaks[0]) if leaks else f.loc(), what="an error while hibernating one breakpoint forgets all breakpoints not processed yet: they stay patched in the debuggee and vanish from the lists")
+    # enable_all_breakpoints, the inverse: a parked breakpoint whose object file is not loaded (dlopen later) stays parked
+    ea = ck.anchor(f"{REG}::enable_all_breakpoints")
+    tib = [c for c in ea.calls() if c.name.endswith("UninitBreakpoint::try_into_brkpt")]
+    oim = [c for c in ea.calls() if c.name.endswith("UninitBreakpoint::object_is_missing")]
+    ok = len(tib) == 1 and len(oim) == 1 and ea.dominates(oim[0].bb, tib[0].bb)
+    d = f"try_into_brkpt={len(tib)} object_is_missing={len(oim)}"
+    if ok:
+        cuts_t = switch_cuts_on_call_result(ea, lambda cc: cc.bb == oim[0].bb, [1])  # cut the `missing` edge
+        ok = tib[0].bb in cut_edges_reach(ea, ea.succ(oim[0].bb), set(), cuts_t)
+        cuts_f = switch_cuts_on_call_result(ea, lambda cc: cc.bb == oim[0].bb, [0])  # follow only the `missing` edge
+        miss = cut_edges_reach(ea, ea.succ(oim[0].bb), set(), cuts_f)
+        ins = [c for c in ea.calls() if re.search(r"HashMap::<K, V, S(, A)?>::insert$", c.name) and ".disabled_breakpoints" in expr_str(expr_of(ea, c.args[0]), 5)]
+        miss_wo = cut_edges_reach(ea, ea.succ(oim[0].bb), {c.bb for c in ins}, cuts_f)
+        nx = [n for n in ea.calls() if is_iter_next(n)]
+        ok = ok and bool(ins) and bool(nx) and tib[0].bb not in cut_edges_reach(ea, ea.succ(oim[0].bb), {n.bb for n in nx}, cuts_f) and not any(n.bb in miss_wo for n in nx) and not any(ea.blocks[b]["term"]["t"] == "return" for b in miss_wo)
+        d += f"; re-inserts={len(ins)}"
+    ck.ob("table.hibernate", "enable_all_breakpoints/breakpoint-of-a-missing-object-stays-parked", ok, d, ea.loc(), what="a user breakpoint whose shared library is not loaded at the moment is dropped when the parked breakpoints are re-installed (restart before the dlopen)")
+    om = [g for p2, g in prog.fns.items() if p2.endswith("UninitBreakpoint::object_is_missing")]
+    if ck.ob("table.hibernate", "object_is_missing/exists", len(om) == 1, "", ""):
+        g = om[0]
+        ck.saw(g)
+        names_ = [c.name for x in prog.with_closures(g.path) for c in x.calls()]
+        ck.ob("table.hibernate", "object_is_missing/asks-the-registry-for-the-breakpoint's-file", any(n.endswith("Debugee::debug_info_from_file") for n in names_) and any(n.endswith("Result::<T, E>::is_err") for n in names_), "", g.loc())
     # every drained breakpoint is disabled: C01 mpt.removal
     ni = ck.anchor("debugger::breakpoint::UninitBreakpoint::new_inherited")
     agg = [rv for _, _, _, rv, _ in ni.assigns() if rv["r"] == "agg"]
